@@ -25,6 +25,11 @@ CLAIMS = {
         "Trusted: symx interception layer incl. the canonical-key groupby patch (hash buckets of pandas are made to respect solver-decided equality), z3. Chain harness uses concrete unequal weights.",
         "DESIGN.md 4/C14",
     ),
+    "C19": (
+        "The real descriptives (weighted_median, MAD, IQR, gapper, Qn, weighted MAD/std, on_array/on_weighted_array NaN handling; biweight location/midvariance only for n <= 2 and constant data) and smoothers (rolling_median through a window model of Series.rolling, unweighted kaiser, weighted savgol via convolve_weighted, _width2wing/_pad_array/check_inputs) run on symbolic vectors of length 1..4 (thorough up to 6); z3 proves per path non-negativity, zero on constants, shift invariance, scale equivariance (concrete factors), equality with independent closed-form definitions (sorting networks of If-terms), the half-weight clauses of the weighted median and its equality with the ordinary median for equal weights, one finite value per input, range and constant reproduction of the smoothers, and rolling median = median of the mirrored window.",
+        "Trusted: symx interception layer (rolling/convolve/percentile models are compared with numpy/pandas by setup.sh's selfcheck), z3; sqrt uninterpreted. Not covered: biweight numerics beyond n = 2, modal_location, unweighted savgol (compiled scipy); linear filters carry a 1e-9 slack.",
+        "DESIGN.md 4/C19",
+    ),
     "C06": (
         "Every feasible path of the real merge/flatten/subtract/intersection/subdivide/resize_ranges/total_range_size code on tables of <= 3 rows (quick; 4 thorough) with fully symbolic integer coordinates in [0, 10^6] is enumerated by z3; on each path the base-exactness oracle (one universally quantified position x) and the structural clauses are discharged as unsat. A bounded model check of the real code, not a proof: nothing is claimed beyond the row bounds.",
         "Trusted: the symx interception layer (object-dtype pandas semantics = int64 semantics, validated by replaying explored paths on the untouched code), z3; avg/min sizes of subdivide concrete.",
